@@ -191,17 +191,20 @@ pub fn bisync_io_faults(mode: &str, seed: u64, thorough: bool) -> (u64, Vec<Viol
     let scs = scenarios(seed, thorough);
     let errnos: Vec<i32> = if thorough { vec![28, 5, 13] } else { vec![13] };
     let base = Scratch::new("e3iof");
-    let jobs: Vec<(usize, &Scn, i32)> = scs.iter().enumerate().flat_map(|(i, s)| errnos.iter().map(move |e| (i, s, *e))).filter(|(_, s, _)| s.name != "S10-propagate-300KiB").collect();
+    // (errno, read-side calls counted too)
+    let kinds: Vec<(i32, bool)> = errnos.iter().map(|e| (*e, false)).chain([(13, true)]).chain(if thorough { vec![(5, true)] } else { vec![] }).collect();
+    let jobs: Vec<(usize, &Scn, i32, bool)> = scs.iter().enumerate().flat_map(|(i, s)| kinds.iter().map(move |k| (i, s, k.0, k.1))).filter(|(_, s, _, _)| s.name != "S10-propagate-300KiB").collect();
     let res: Vec<(u64, Vec<Violation>)> = jobs
         .par_iter()
-        .map(|&(i, s, errno)| {
-            let slot = Slot { root: base.path(&format!("w{i}-{errno}")) };
+        .map(|&(i, s, errno, reads)| {
+            let slot = Slot { root: base.path(&format!("w{i}-{errno}-{reads}")) };
             let _ = std::fs::create_dir_all(&slot.root);
             slot.prepare(s);
             let logp = slot.root.join("log");
             let pre = slot.state();
             slot.restore();
-            let r0 = slot.bisync(Some(&logp), None);
+            let cr = if reads { "1" } else { "0" };
+            let r0 = run_cli_inj(&["bisync", "A", "B"], &slot.root, &[("HOME", slot.home().to_string_lossy().into_owned()), ("VSHIM_COUNT_READS", cr.to_string())], &slot.root, Some(&logp), None);
             let n = read_log(&logp).len() as u64;
             if !(r0.code == Some(0) || r0.code == Some(1)) || n == 0 {
                 // no baseline on this tree: the fault-free behaviour is judged by the main exploration, not here
@@ -211,7 +214,7 @@ pub fn bisync_io_faults(mode: &str, seed: u64, thorough: bool) -> (u64, Vec<Viol
             let mut out = Vec::new();
             for k in 1..=n {
                 slot.restore();
-                let envs = [("HOME", slot.home().to_string_lossy().into_owned()), ("VSHIM_FAIL_AT", k.to_string()), ("VSHIM_FAIL_ERRNO", errno.to_string())];
+                let envs = [("HOME", slot.home().to_string_lossy().into_owned()), ("VSHIM_FAIL_AT", k.to_string()), ("VSHIM_FAIL_ERRNO", errno.to_string()), ("VSHIM_COUNT_READS", cr.to_string())];
                 let r = run_cli_inj(&["bisync", "A", "B"], &slot.root, &envs, &slot.root, Some(&logp), Some(u64::MAX));
                 runs += 1;
                 let klog = read_log(&logp);
@@ -219,8 +222,8 @@ pub fn bisync_io_faults(mode: &str, seed: u64, thorough: bool) -> (u64, Vec<Viol
                 let _ = klog;
                 let st = slot.state();
                 let completed = r.code == Some(0) || (r.code == Some(1) && r.stderr.contains("had conflicts"));
-                let det = json!({"io_fault": {"scenario": s.name, "k": k, "errno": errno}});
-                let what = format!("scenario {} with libc call #{k} ({}) failing with errno {errno}, exit {:?}", s.name, failed.rsplit('/').next().unwrap_or(""), r.code);
+                let det = json!({"io_fault": {"scenario": s.name, "k": k, "errno": errno, "reads": reads}});
+                let what = format!("scenario {} with libc call #{k}{} ({}) failing with errno {errno}, exit {:?}", s.name, if reads { " (reads counted)" } else { "" }, failed.rsplit('/').next().unwrap_or(""), r.code);
                 if r.signal.is_some() {
                     out.push(Violation::new("crash_on_io_error", format!("{what}: killed by signal {:?}", r.signal), det.clone()).with("cause", json!("io_error")));
                     continue;
